@@ -1,9 +1,97 @@
-import LW.Model.Optic
+/-
+  C02 — Adding a sub-circuit wires it in order; heralded modes become private ancillas.
+
+  Theorems about the bookkeeping model `Circ` (LW.Model.Circuit: mapMode, herald, add, …) and the
+  specification model `Optic` (LW.Model.Optic).  Statements hold for every circuit state
+  satisfying the invariant `Circ.WF`, which every reachable state does (`*_preserves_WF`).
+-/
+import LW.Proofs.C02
 
 namespace LW.C02
 
-/-- interim: a fresh specification optic has no ancillas (replaced by the real theorems) -/
-theorem new_no_ancillas {K : Type} [Add K] [Mul K] [Neg K] [Zero K] [One K] (n : Nat) :
-    (Optic.new n : Optic K).a = 0 := rfl
+variable {K : Type}
+
+/-- the user-mode map never lands on an ancilla (later mode numbering skips ancillas) -/
+theorem mapMode_not_internal (c : Circ K) (m : Int) (hm : 0 ≤ m) :
+    ∀ a ∈ c.internal, c.mapMode m ≠ (a : Int) :=
+  Proofs.C02.mapMode_not_internal c m hm
+
+/-- … it preserves order … -/
+theorem mapMode_strictMono (c : Circ K) (m m' : Int) (h : m < m') : c.mapMode m < c.mapMode m' :=
+  Proofs.C02.mapMode_strictMono c m m' h
+
+/-- … and it reaches exactly the non-ancilla modes: user mode `m` is in range iff `m < ports` -/
+theorem mapMode_lt_iff (c : Circ K) (hwf : c.WF) (m : Int) (hm : 0 ≤ m) :
+    c.mapMode m < (c.n : Int) ↔ m < (c.ports : Int) :=
+  Proofs.C02.mapMode_lt_iff c hwf m hm
+
+/-- a fresh circuit satisfies the invariant -/
+theorem new_WF (n : Nat) : (Circ.new n : Circ K).WF := Proofs.C02.new_WF n
+
+/-- `herald` preserves the invariant -/
+theorem herald_preserves_WF (c c' : Circ K) (hwf : c.WF) (k : Nat) (i o : Int)
+    (h : c.herald k i o = .ok c') : c'.WF ∧ c'.n = c.n ∧ c'.internal = c.internal :=
+  Proofs.C02.herald_preserves_WF c c' hwf k i o h
+
+/-- every accepted primitive call preserves the invariant and touches no ancilla mode:
+the modes of the appended components are never internal modes. -/
+theorem prim_calls_avoid_ancillas (c c' : Circ K) (hwf : c.WF) :
+    (∀ m1 m2 cs cv l, c.bs m1 m2 cs cv l = .ok c' →
+        c'.WF ∧ ∃ added, c'.spec = c.spec ++ added ∧ ∀ x ∈ added, ∀ m ∈ x.modes, m ∉ c.internal) ∧
+    (∀ m p l, c.ps m p l = .ok c' →
+        c'.WF ∧ ∃ added, c'.spec = c.spec ++ added ∧ ∀ x ∈ added, ∀ m ∈ x.modes, m ∉ c.internal) ∧
+    (∀ m ab, c.loss m ab = .ok c' →
+        c'.WF ∧ ∃ added, c'.spec = c.spec ++ added ∧ ∀ x ∈ added, ∀ m ∈ x.modes, m ∉ c.internal) ∧
+    (∀ ms, c.barrier ms = .ok c' →
+        c'.WF ∧ ∃ added, c'.spec = c.spec ++ added ∧ ∀ x ∈ added, ∀ m ∈ x.modes, m ∉ c.internal) ∧
+    (∀ sw, c.modeSwaps sw = .ok c' →
+        c'.WF ∧ ∃ added, c'.spec = c.spec ++ added ∧ ∀ x ∈ added, ∀ m ∈ x.modes, m ∉ c.internal) :=
+  Proofs.C02.prim_calls_avoid_ancillas c c' hwf
+
+/-- `add` preserves the invariant; the parent gains exactly one ancilla per herald of the added
+circuit, its number of user-visible modes is unchanged, and every ancilla it already had is still
+an ancilla carrying the same photon number (at its possibly shifted position). -/
+theorem add_preserves_WF [Zero K] [One K] (self sub self' : Circ K) (hs : self.WF) (hsub : sub.WF)
+    (m : Int) (g : Bool) (h : self.add sub m g = .ok self') :
+    self'.WF ∧
+    self'.internal.length = self.internal.length + sub.inHer.length ∧
+    self'.ports = self.ports ∧
+    (∀ a ∈ self.internal, ∃ a' ∈ self'.internal, a ≤ a' ∧ self'.inHer.get? a' = self.inHer.get? a
+        ∧ self'.outHer.get? a' = self.outHer.get? a) :=
+  Proofs.C02.add_preserves_WF self sub self' hs hsub m g h
+
+/-- an addition whose user-visible span does not fit is rejected (and, `Except` carrying no
+state, leaves everything unchanged) -/
+theorem add_rejects_oversize [Zero K] [One K] (self sub : Circ K) (hs : self.WF) (hsub : sub.WF)
+    (m : Int) (g : Bool)
+    (h : m < 0 ∨ (self.ports : Int) < m + ((sub.n - sub.inHer.length : Nat) : Int)) :
+    self.add sub m g = .error .modeRange :=
+  Proofs.C02.add_rejects_oversize self sub hs hsub m g h
+
+/-! ### specification level -/
+
+section
+variable [Add K] [Mul K] [Neg K] [Zero K] [One K]
+
+/-- composing on the specification level keeps the parent's ports, keeps its heralds as a prefix
+(existing ancillas are never touched) and appends one private ancilla per herald of the added
+circuit, with the same photon number at input and output. -/
+theorem compose_heralds (x : Optic K) (s : Closed K) (m : Nat) :
+    (x.compose s m).p = x.p ∧
+    (x.compose s m).a = x.a + s.hn.length ∧
+    (x.compose s m).l = x.l + s.l ∧
+    (x.compose s m).her.take x.her.length = x.her ∧
+    ((x.compose s m).her.drop x.her.length).map (·.n) = s.hn ∧
+    ∀ h ∈ (x.compose s m).her.drop x.her.length, h.i = h.o ∧ x.p + x.a ≤ h.i :=
+  Proofs.C02.compose_heralds x s m
+
+/-- the closed form of an optic lists every herald's photon number, in declaration order, and
+its dimension is free ports + heralds + loss -/
+theorem closed_shape (x : Optic K) :
+    x.closed.hn = x.her.map (·.n) ∧ x.closed.l = x.l ∧
+    x.closed.W.n = x.closed.q + x.her.length + x.l :=
+  Proofs.C02.closed_shape x
+
+end
 
 end LW.C02
